@@ -120,19 +120,72 @@ theorem Rec.eq_none {eq : α → α → Bool} (r1 r2 : Rec α) (hq : Rec.equival
   unfold Rec.eq
   simp [hq]
 
+/-! ## heterogeneous products and sums -/
+
+theorem Pair.eq_iff {β : Type} {eqA : α → α → Bool} {eqB : β → β → Bool} (hA : LawfulEq eqA) (hB : LawfulEq eqB) :
+    LawfulEq (Pair.eq eqA eqB) := by
+  intro a b
+  cases a; cases b
+  simp [Pair.eq, hA _ _, hB _ _]
+
+theorem SumV.eq_iff {β : Type} {eqA : α → α → Bool} {eqB : β → β → Bool} (hA : LawfulEq eqA) (hB : LawfulEq eqB) :
+    LawfulEq (SumV.eq eqA eqB) := by
+  intro a b
+  cases a <;> cases b <;> simp [SumV.eq, hA _ _, hB _ _]
+
+theorem SumV.lt_strictTotal {β : Type} {ltA : α → α → Bool} {ltB : β → β → Bool} (hA : StrictTotal ltA)
+    (hB : StrictTotal ltB) : StrictTotal (SumV.lt ltA ltB) where
+  irrefl a := by cases a <;> simp [SumV.lt, hA.irrefl, hB.irrefl]
+  trans a b c := by
+    cases a <;> cases b <;> cases c <;> simp [SumV.lt]
+    · exact hA.trans _ _ _
+    · exact hB.trans _ _ _
+  total a b := by
+    cases a <;> cases b <;> simp [SumV.lt]
+    · exact hA.total _ _
+    · exact hB.total _ _
+
+theorem SumV.compare_eq {β : Type} (eqA : α → α → Bool) (eqB : β → β → Bool) (a b : Sum α β) :
+    SumV.compare eqA eqB a b = SumV.eq eqA eqB a b := by
+  cases a <;> cases b <;> rfl
+
 /-! ## box, sphere -/
 
-theorem Box.eq_iff {n : Nat} {eq : α → α → Bool} (he : LawfulEq eq) (a b : Box α n) : Box.eq eq a b = true ↔ a = b := by
-  cases a with
-  | mk p s =>
-    cases b with
-    | mk q u => simp [Box.eq, MVec.eq, equalV_iff he]
+theorem Box.ext' {n : Nat} (a b : Box α n) (h1 : a.min = b.min) (h2 : a.max = b.max) : a = b := by
+  cases a; cases b; simp_all
 
-theorem Box.lt_strictTotal {n : Nat} {lt : α → α → Bool} (h : StrictTotal lt) : StrictTotal (Box.lt (n := n) lt) :=
-  strictTotal_lexProd (Box.lt lt) Box.pos Box.size
-    (fun a b h1 h2 => by cases a; cases b; simp_all)
+/-- `max - min` together with `min` determines `max` when `-` can be undone -/
+theorem Box.max_eq_of_size_eq {n : Nat} {sub : α → α → α} (hs : SubCancel sub) (a b : Box α n)
+    (hmin : a.min = b.min) (hsize : a.size sub = b.size sub) : a.max = b.max := by
+  apply Vector.ext
+  intro i hi
+  have := congrArg (fun v : Vector α n => v[i]) hsize
+  simp only [Box.size, Vector.getElem_zipWith, hmin] at this
+  exact hs _ _ _ this
+
+theorem Box.eq_iff {n : Nat} {sub : α → α → α} {eq : α → α → Bool} (hs : SubCancel sub) (he : LawfulEq eq)
+    (a b : Box α n) : Box.eq sub eq a b = true ↔ a = b := by
+  constructor
+  · intro h
+    simp only [Box.eq, MVec.eq, Bool.and_eq_true, equalV_iff he] at h
+    exact Box.ext' a b h.1 (Box.max_eq_of_size_eq hs a b h.1 h.2)
+  · rintro rfl
+    simp [Box.eq, MVec.eq, equalV_iff he]
+
+theorem Box.lt_strictTotal {n : Nat} {sub : α → α → α} {lt : α → α → Bool} (hs : SubCancel sub) (h : StrictTotal lt) :
+    StrictTotal (Box.lt (n := n) sub lt) :=
+  strictTotal_lexProd (Box.lt sub lt) Box.pos (Box.size sub)
+    (fun a b h1 h2 => Box.ext' a b h1 (Box.max_eq_of_size_eq hs a b h1 h2))
     (arrayLess_strictTotal h) (arrayLess_strictTotal h)
-    (fun a b => pairLt_iff (arrayLess_strictTotal h) (a.pos, a.size) (b.pos, b.size))
+    (fun a b => pairLt_iff (arrayLess_strictTotal h) (a.pos, a.size sub) (b.pos, b.size sub))
+
+/-- a box constructed from position and size has that position and that size -/
+theorem Box.ofPosSize_spec {n : Nat} {add sub : α → α → α} (hadd : ∀ p s, sub (add p s) p = s) (p s : Vector α n) :
+    (Box.ofPosSize add p s).pos = p ∧ (Box.ofPosSize add p s).size sub = s := by
+  refine ⟨rfl, ?_⟩
+  apply Vector.ext
+  intro i hi
+  simp [Box.size, Box.ofPosSize, Vector.getElem_zipWith, hadd]
 
 theorem Sphere.eq_iff {n : Nat} {eq : α → α → Bool} (he : LawfulEq eq) (a b : Sphere α n) :
     Sphere.eq eq a b = true ↔ a = b := by
